@@ -2312,7 +2312,7 @@ def fast_nonMarkov_SIR(G, trans_time_fxn=None,
     if initial_recovereds is not None:
         for node in initial_recovereds:
             status[node] = 'R'
-            rec_time[node] = tmin-1 #default value for these.  Ensures that the recovered nodes appear with a time
+            rec_time[node] = tmin #recovered from the start: their history is ([tmin], ['R'])
     pred_inf_time = defaultdict(lambda: float('Inf')) 
         #infection time defaults to \infty  --- this could be set to tmax, 
         #probably with a slight improvement to performance.
@@ -2329,7 +2329,11 @@ def fast_nonMarkov_SIR(G, trans_time_fxn=None,
         initial_infecteds=[initial_infecteds]
     #else it is assumed to be a list of nodes.
         
-    times, S, I, R= ([tmin], [G.order()], [0], [0])  
+    if initial_recovereds is None:
+        number_recovered = 0
+    else:
+        number_recovered = len(initial_recovereds)
+    times, S, I, R= ([tmin], [G.order()-number_recovered], [0], [number_recovered])  
     transmissions = []
     
     for u in initial_infecteds:
